@@ -8,14 +8,36 @@ from gtwrap.template_instantiator.declaration import InstantiatedDeclaration
 from gtwrap.template_instantiator.function import InstantiatedGlobalFunction
 
 
-def instantiate_namespace(namespace):
+def _resolve_typedefs(namespace, top_level, targets):
+    """
+    Look up the class, function or forward declaration which each typedef in
+    `namespace` (and its sub-namespaces) refers to, before anything is
+    instantiated, so that the lookup does not depend on the position of the
+    typedef relative to the (already instantiated) namespace of the template.
+    """
+    for element in namespace.content:
+        if isinstance(element, parser.TypedefTemplateInstantiation):
+            targets[id(element)] = top_level.find_class_or_function(
+                element.typename)
+        elif isinstance(element, parser.Namespace):
+            _resolve_typedefs(element, top_level, targets)
+    return targets
+
+
+def instantiate_namespace(namespace, typedef_targets=None):
     """
     Instantiate the classes and other elements in the `namespace` content and
     assign it back to the namespace content attribute.
 
     @param[in/out] namespace The namespace whose content will be replaced with
         the instantiated content.
+    @param[in] typedef_targets The declarations the typedefs refer to, resolved
+        on the uninstantiated tree (computed on the outermost call).
     """
+    if typedef_targets is None:
+        top_level = namespace.top_level()
+        typedef_targets = _resolve_typedefs(top_level, top_level, {})
+
     instantiated_content = []
     typedef_content = []
 
@@ -54,9 +76,7 @@ def instantiate_namespace(namespace):
             # This is for the case where `typedef` statements are used
             # to specify the template parameters.
             typedef_inst = element
-            top_level = namespace.top_level()
-            original_element = top_level.find_class_or_function(
-                typedef_inst.typename)
+            original_element = typedef_targets[id(typedef_inst)]
 
             # Check if element is a typedef'd class, function or
             # forward declaration from another project.
@@ -77,7 +97,7 @@ def instantiate_namespace(namespace):
                         typedef_inst.new_name))
 
         elif isinstance(element, parser.Namespace):
-            element = instantiate_namespace(element)
+            element = instantiate_namespace(element, typedef_targets)
             instantiated_content.append(element)
         else:
             instantiated_content.append(element)
